@@ -52,7 +52,7 @@ Step ==
      ELSE IF mode = "skip" THEN UNCHANGED <<mode, cur, nacc>>
      ELSE LET r == Reason IN
           IF r = "ok"
-          THEN /\ mode' = mode /\ nacc' = nacc + (IF E.ev = "dec" THEN 1 ELSE 0)
+          THEN /\ mode' = mode /\ nacc' = nacc + (IF E.ev \in {"dec", "cdec"} THEN 1 ELSE 0)
                /\ cur' = IF E.ev = "enc" THEN [cur EXCEPT !.cfg = E.cfg, !.src = E.src]
                          ELSE IF E.ev = "cenc" THEN [cur EXCEPT !.cfg = CCfg, !.src = E.src] ELSE cur
           ELSE LET cfg == IF E.ev = "enc" THEN E.cfg ELSE IF E.ev = "cenc" THEN CCfg ELSE cur.cfg IN
